@@ -1,7 +1,6 @@
 package main
 
 import (
-	"bytes"
 	"context"
 	"fmt"
 	"os"
@@ -62,6 +61,10 @@ type driver struct {
 	active    bool
 	curInj    []*injState
 	curFlush  *flushRec
+	real      *realTracker
+	resMu     sync.Mutex
+	cursor    map[partKey]int64
+	payloads  map[partKey]map[string]int
 	pending   []chan struct{}
 	arrCh     chan func()
 	famObsSet func(f *famWrap)
@@ -170,6 +173,8 @@ func runHistory(idx int, dir, tier string, seed, t0 int64) *ledger {
 		d.parts[ps.key] = ps
 		d.mu.Unlock()
 		ps.fam.afterWriteRows = d.afterWriteRows
+		ps.fam.onWriteRows = d.onWriteRows
+		ps.fam.onCommit = d.onCommit
 		ps.fam.onAck = d.onAck
 	}, false)
 	d.mgr = replica.NewWriteAheadLogManager(d.ctx, walConfig(), selfNode, n.Engine, nil, nil)
@@ -242,6 +247,140 @@ func (d *driver) runStep(s *planStep) {
 		d.endFlush(rec)
 	case "data":
 		d.flushData(s)
+	case "cycle":
+		d.realCycle(s)
+	}
+}
+
+// realTracker follows a flush job run by the real dataFlushChecker.doFlush through the labels of its file-system
+// operations: which store is being written tells which step of the job is running.
+type realTracker struct {
+	recs   map[string]*flushRec
+	order  []string
+	last   map[int]string // shard -> data key seen last (manifest operations of a day store do not name the family)
+	lastOp int64
+}
+
+func (d *driver) realCycle(s *planStep) {
+	tr := &realTracker{recs: map[string]*flushRec{}, last: map[int]string{}}
+	mk := func(key, kind string, shard int, fam int64) {
+		tr.recs[key] = &flushRec{Kind: kind, Shard: shard, Family: fam, Cycle: s.Cycle, PersistSeq: -1, Real: true, BeginImg: -1, DoneImg: -1}
+		tr.order = append(tr.order, key)
+	}
+	mk("meta", "meta", 0, 0)
+	var families []tsdb.DataFamily
+	for sh := 0; sh < d.plan.Shards; sh++ {
+		mk(fmt.Sprintf("index/%d", sh), "index", sh, 0)
+		for _, fam := range d.plan.Families {
+			mk(fmt.Sprintf("data/%d/%d", sh, fam), "data", sh, fam)
+			families = append(families, d.parts[partKey{Shard: sh, Family: fam}].fam.DataFamily)
+		}
+	}
+	agg := &flushRec{Kind: "cycle"}
+	d.mu.Lock()
+	d.curInj = nil
+	for i := range s.Inject {
+		d.curInj = append(d.curInj, &injState{inj: &s.Inject[i]})
+	}
+	d.curFlush = agg
+	d.real = tr
+	d.active = true
+	d.mu.Unlock()
+	call := d.nextTick()
+	for _, rec := range tr.recs {
+		rec.BeginTick = call
+		rec.SwitchLo = call
+	}
+	tr.lastOp = call
+	tsdb.VerifDoFlush(d.n.DB, families)
+	d.mu.Lock()
+	d.active = false
+	d.real = nil
+	pend := d.pending
+	d.pending = nil
+	d.curFlush = nil
+	d.mu.Unlock()
+	for _, ch := range pend {
+		<-ch
+	}
+	end, endImg := d.nextTick(), d.world.Count()
+	d.mu.Lock()
+	for _, key := range tr.order {
+		rec := tr.recs[key]
+		if rec.BeginImg < 0 { // the store was not written at all
+			rec.BeginImg, rec.BeginTickHi, rec.SwitchLo = endImg, end, end
+		}
+		if rec.DoneImg < 0 {
+			rec.DoneImg, rec.DoneTick = endImg, end
+		}
+		if rec.Kind == "data" {
+			if seq, ok := d.parts[partKey{Shard: rec.Shard, Family: rec.Family}].fam.DataFamily.GetState().AckSequences[selfNode]; ok {
+				rec.PersistSeq = seq
+			}
+		}
+		d.L.Flushes = append(d.L.Flushes, *rec)
+		d.L.Counters["flush."+rec.Kind]++
+	}
+	d.L.Counters["flush_cycles_run_by_the_real_doFlush"]++
+	d.L.Counters["arrivals_at_fs_operations_of_a_flush"] += agg.Injected
+	d.L.Counters["arrivals_overlapping_the_flush_operation"] += agg.Overlapped
+	d.mu.Unlock()
+}
+
+// observe is called (under d.mu) for every non-log operation of a real flush job.
+func (tr *realTracker) observe(d *driver, label string) {
+	key := ""
+	switch {
+	case label == "seqsync" || strings.Contains(label, "/"+dbName+"/meta/"):
+		key = "meta"
+	case strings.Contains(label, "/shard/"):
+		rest := label[strings.Index(label, "/shard/")+len("/shard/"):]
+		sh := 0
+		fmt.Sscanf(rest, "%d", &sh)
+		switch {
+		case strings.Contains(rest, "/index/"):
+			key = fmt.Sprintf("index/%d", sh)
+		case strings.Contains(rest, "/segment/"):
+			// .../segment/day/20260924/8/000002.sst names the family (hour 8 of the day); the day store's manifest does not
+			seg := rest[strings.Index(rest, "/segment/")+len("/segment/"):]
+			var day, hour int
+			var typ string
+			parts := strings.Split(seg, "/")
+			if len(parts) >= 4 {
+				typ = parts[0]
+				fmt.Sscanf(parts[1], "%d", &day)
+				if _, err := fmt.Sscanf(parts[2], "%d", &hour); err == nil && typ == "day" {
+					t := time.Date(day/10000, time.Month(day/100%100), day%100, hour, 0, 0, 0, time.UTC)
+					key = fmt.Sprintf("data/%d/%d", sh, t.UnixMilli())
+					tr.last[sh] = key
+				}
+			}
+			if key == "" {
+				key = tr.last[sh]
+			}
+		}
+	}
+	rec := tr.recs[key]
+	if rec == nil {
+		return
+	}
+	now, img := d.tick.Add(1), d.world.Count()
+	if rec.BeginImg < 0 {
+		rec.BeginImg, rec.BeginTickHi, rec.SwitchLo = img, now, tr.lastOp
+	}
+	tr.lastOp = now
+	// a later step has started: the earlier ones are complete
+	done := func(k string) {
+		if r := tr.recs[k]; r != nil && r.DoneImg < 0 {
+			r.DoneImg, r.DoneTick = img, now
+		}
+	}
+	switch rec.Kind {
+	case "index":
+		done("meta")
+	case "data":
+		done("meta")
+		done(fmt.Sprintf("index/%d", rec.Shard))
 	}
 }
 
@@ -257,6 +396,8 @@ func (d *driver) beginFlush(s *planStep) *flushRec {
 	d.mu.Unlock()
 	rec.BeginImg = d.world.Count()
 	rec.BeginTick = d.nextTick()
+	rec.BeginTickHi = rec.BeginTick
+	rec.SwitchLo = rec.BeginTick
 	return rec
 }
 
@@ -381,6 +522,9 @@ func (d *driver) before(label string) {
 		d.mu.Unlock()
 		return
 	}
+	if d.real != nil {
+		d.real.observe(d, label)
+	}
 	var fire *injection
 	for _, st := range d.curInj {
 		if st.fired || !strings.HasPrefix(label, st.inj.Prefix) || !strings.Contains(label, st.inj.Contains) {
@@ -413,7 +557,7 @@ func (d *driver) before(label string) {
 	d.mu.Unlock()
 	select {
 	case <-done:
-	case <-time.After(300 * time.Millisecond):
+	case <-time.After(1500 * time.Millisecond):
 		// the arriving rows need a lock the flushing goroutine holds around this operation: let the operation go on,
 		// the rows complete concurrently with the rest of the flush step
 		d.mu.Lock()
@@ -476,6 +620,13 @@ func (d *driver) appendRows(rows []rowRec, writers int, split bool) []int {
 		e := entryRec{ID: len(d.L.Entries), Part: b.part, Seq: -1, Rows: b.rows, First: -1, Last: -1, Writers: writers}
 		ids[i] = e.ID
 		d.L.Entries = append(d.L.Entries, e)
+		if d.payloads == nil {
+			d.payloads = map[partKey]map[string]int{}
+		}
+		if d.payloads[b.part] == nil {
+			d.payloads[b.part] = map[string]int{}
+		}
+		d.payloads[b.part][string(b.payload)] = e.ID // payloads are unique (every row has its own uid / slot)
 	}
 	d.mu.Unlock()
 	var wg sync.WaitGroup
@@ -502,37 +653,8 @@ func (d *driver) appendRows(rows []rowRec, writers int, split bool) []int {
 	}
 	wg.Wait()
 	// which sequence did each entry get? (WriteLog does not tell; with concurrent writers only the log knows)
-	for part, from := range before {
-		ps := d.parts[part]
-		to := ps.log.Queue().AppendedSeq()
-		for seq := from + 1; seq <= to; seq++ {
-			msg, err := ps.rep.GetMessage(seq)
-			if err != nil {
-				d.problem("GetMessage(%d) of %s: %v", seq, part, err)
-				continue
-			}
-			matched := false
-			for i, b := range built {
-				if b.part == part && bytes.Equal(b.payload, msg) {
-					d.mu.Lock()
-					if d.L.Entries[ids[i]].Seq < 0 {
-						d.L.Entries[ids[i]].Seq = seq
-						if d.bySeq[part] == nil {
-							d.bySeq[part] = map[int64]int{}
-						}
-						d.bySeq[part][seq] = ids[i]
-						matched = true
-					}
-					d.mu.Unlock()
-					if matched {
-						break
-					}
-				}
-			}
-			if !matched {
-				d.problem("log sequence %d of %s holds bytes no writer appended", seq, part)
-			}
-		}
+	for part := range before {
+		d.resolveSeqs(part)
 	}
 	d.count("entries_appended", len(built))
 	if writers > 1 {
@@ -541,17 +663,87 @@ func (d *driver) appendRows(rows []rowRec, writers int, split bool) []int {
 	return ids
 }
 
+// resolveSeqs reads the messages the log of a partition received since the last call and finds the entries they are.
+func (d *driver) resolveSeqs(part partKey) {
+	d.resMu.Lock()
+	defer d.resMu.Unlock()
+	ps := d.parts[part]
+	if d.cursor == nil {
+		d.cursor = map[partKey]int64{}
+	}
+	cur, ok := d.cursor[part]
+	if !ok {
+		cur = -1
+	}
+	to := ps.log.Queue().AppendedSeq()
+	for seq := cur + 1; seq <= to; seq++ {
+		msg, err := ps.rep.GetMessage(seq)
+		if err != nil {
+			d.problem("GetMessage(%d) of %s: %v", seq, part, err)
+			d.cursor[part] = seq
+			continue
+		}
+		d.mu.Lock()
+		id, found := d.payloads[part][string(msg)]
+		if found && d.L.Entries[id].Seq < 0 {
+			d.L.Entries[id].Seq = seq
+			if d.bySeq[part] == nil {
+				d.bySeq[part] = map[int64]int{}
+			}
+			d.bySeq[part][seq] = id
+			delete(d.payloads[part], string(msg))
+		} else {
+			d.L.Problems = append(d.L.Problems, fmt.Sprintf("log sequence %d of %s holds bytes no writer appended", seq, part))
+		}
+		d.mu.Unlock()
+		d.cursor[part] = seq
+	}
+}
+
+// entryOf finds the ledger entry of a log sequence (reading the log when the writer has not done so yet).
+func (d *driver) entryOf(key partKey, seq int64) (int, bool) {
+	d.mu.Lock()
+	id, ok := d.bySeq[key][seq]
+	d.mu.Unlock()
+	if ok {
+		return id, true
+	}
+	d.resolveSeqs(key)
+	d.mu.Lock()
+	id, ok = d.bySeq[key][seq]
+	d.mu.Unlock()
+	return id, ok
+}
+
 func (d *driver) stepOnce(ps *partState) {
 	replica.VerifReplicaStep(ps.inner, ps.nodeID, ps.rep)
 	d.count("replication_steps", 1)
+}
+
+func (d *driver) onWriteRows(key partKey, seq int64, _ []*metric.StorageRow) {
+	t := d.nextTick()
+	if id, ok := d.entryOf(key, seq); ok {
+		d.mu.Lock()
+		d.L.Entries[id].ApplyLo = t
+		d.mu.Unlock()
+	}
+}
+
+func (d *driver) onCommit(key partKey, seq int64) {
+	t := d.nextTick()
+	if id, ok := d.entryOf(key, seq); ok {
+		d.mu.Lock()
+		d.L.Entries[id].CommitTick = t
+		d.mu.Unlock()
+	}
 }
 
 // afterWriteRows: the local replicator's WriteRows returned (rows are in the memory database, names and series were
 // created), CommitSequence not yet called.
 func (d *driver) afterWriteRows(key partKey, seq int64) {
 	t := d.nextTick()
+	id0, known := d.entryOf(key, seq)
 	d.mu.Lock()
-	id0, known := d.bySeq[key][seq]
 	var rows []rowRec
 	if known {
 		rows = d.L.Entries[id0].Rows
